@@ -105,8 +105,18 @@ pub fn drain_with<R: Read>(mut r: R, reqs: &[usize]) -> (Vec<u8>, Result<(), Str
     let mut i = 0;
     let mut buf = vec![0u8; reqs.iter().copied().max().unwrap_or(1).max(1)];
     loop {
-        let n = reqs[i % reqs.len()].max(1);
+        let n = reqs[i % reqs.len()];
         i += 1;
+        if n == 0 {
+            // a request of 0 is a zero-length read: it returns 0 without meaning end of data
+            if reqs.iter().all(|&q| q == 0) {
+                return (out, Err("only zero-length requests".into()));
+            }
+            match r.read(&mut []) {
+                Ok(_) => continue,
+                Err(e) => return (out, Err(e.to_string())),
+            }
+        }
         match r.read(&mut buf[..n]) {
             Ok(0) => return (out, Ok(())),
             Ok(k) => out.extend_from_slice(&buf[..k]),
